@@ -33,11 +33,13 @@ EMPTY = ['']
 BBOX_DAMAGED = ['*xywh-1:10,20,300', '*xywh-1:10,20', '*xywh-1', '*xywh', '*xywh-1:10;20;300;400']
 # a note, rest or chord with blanks around it (a blank is the chord separator: the grammar then expects another note)
 BLANKS_AROUND = ['4c ', '8.dd#L  ', '2r\u00a0', '4c 4e\x1f', ' 4c', '4c\u2003', '2r ', '16ee-J \u00a0']
-MALFORMED = UNKNOWN + WRONG_ORDER + TRUNCATED + GARBAGE_APPENDED + BUILDER_RAISES + NONASCII + EMPTY + EMPTY + BBOX_DAMAGED + BLANKS_AROUND
+# cells that begin with a double quote (a legal signifier): truncated or garbled, never to be read as CSV quoting
+QUOTED = ['"4', '"qq"', '"', '"4c"x', '"4 "']
+MALFORMED = QUOTED + UNKNOWN + WRONG_ORDER + TRUNCATED + GARBAGE_APPENDED + BUILDER_RAISES + NONASCII + EMPTY + EMPTY + BBOX_DAMAGED + BLANKS_AROUND
 # malformed by construction (an unknown character, a wrong order, a truncation that is no token): a kern spine MUST
 # report these, whatever the recogniser of the tree under test says.  (The others are a valid token followed by
 # garbage, which kernpy accepts and shortens - finding K7 - so for them the recogniser's own verdict is used.)
-MUST_REJECT = {'4zz', 'h', '\u00d64c', '\u00a7', '4c 4zz', '%%', '4&c&&', 'u', 'c4', '#4c', 'c#4', '4#c', 'r4', '=|1|', '=:1',
+MUST_REJECT = {'"4', '"qq"', '"', '"4 "', '4zz', 'h', '\u00d64c', '\u00a7', '4c 4zz', '%%', '4&c&&', 'u', 'c4', '#4c', 'c#4', '4#c', 'r4', '=|1|', '=:1',
                '4', '16.', '*cle', '*k[f#', '*M4/', '*met(c', '4%', '8q', '*clef', '4cc#4%',
                '8rJ', '2r[', 'r]', '2r;]', '4r_', '4rL', 'z2r[', '4r/',
                '*xywh-1:10,20,300', '*xywh-1:10,20', '*xywh-1', '*xywh', '*xywh-1:10;20;300;400',
@@ -135,6 +137,24 @@ def doc_worker(kp, job):
                                        viol=[('import-succeeds', f'loads raised {type(e).__name__} on a document with malformed cells', {'text': text})])]}
     ref, rerrs = kp.loads(clean)
     w = {'text': text, 'malformed': placed}
+    if idx % 2 == 1:
+        # the same bytes in a file: the other line reader must cut the same cells (same tree, same errors, same lines)
+        import os, shutil, tempfile
+        tmp = tempfile.mkdtemp(prefix='kvc12_')
+        try:
+            path = os.path.join(tmp, 'damaged.krn')
+            with open(path, 'w', encoding='utf-8', newline='') as f:
+                f.write(text)
+            try:
+                fdoc, ferrs = kp.load(path)
+                fdump = 'ok:' + docs.impl_show_doc(kp, fdoc, ferrs)
+            except Exception as e:
+                fdump = 'raise:' + type(e).__name__
+        finally:
+            shutil.rmtree(tmp, ignore_errors=True)
+        if fdump != dump:
+            viol.append(('import-succeeds' if fdump.startswith('raise') else 'other-tokens',
+                         f'file import: load() of a file holding the text gives {("an exception " + fdump[6:]) if fdump.startswith("raise") else "another tree / other errors"} than loads() of the text', w))
     # expected errors: malformed cells in kern-parsed spines that the recogniser rejects (one each, with the line number)
     exp = [(ln, m) for ln, ci, m, ht in placed if m == '' or (ht in ('**kern', '**root') and (m in MUST_REJECT or docs.kern_rejects(kp, m)))]
     base = [(e.line, e.encoding) for e in rerrs]
